@@ -571,7 +571,8 @@ def _node_representer(dumper, node):
         parent = parent_metadata.get(f, None) if parent_metadata else None
         default = type_defaults[f]
         if current is not None:
-            if current == parent or current == default:
+            # a value stated by an enclosing node is what the re-parsed node inherits, the type default only applies without one
+            if current == (parent if parent is not None else default):
                 del metadata[f]
         else:
             del metadata[f]
